@@ -48,6 +48,9 @@ type cacheCase struct {
 	lines []line
 	last  map[revcache.Key]*path_mgmt.RevInfo
 	hist  []string
+	// scripted follow-up ops (values in the ranges of the op switch) for scriptKey
+	script    []int
+	scriptKey revcache.Key
 }
 
 func rel(base time.Time, t uint32) int64 { return int64(t) - base.Unix() + relBase }
@@ -60,7 +63,7 @@ func main() {
 	e := vlib.Init()
 	e.Rule = "independent caches x phases (real clock, 1 sleep per phase); per cache random " +
 		"insert/get/clean-up/enumerate over 2-4 interfaces, timestamps from a pool of 8 seconds " +
-		"(equal, older, newer), expiries at phase midpoints, in the past and far away; " +
+		"(equal, older, newer) plus lifetimes of 1-9 s and timestamps up to a few seconds in the future (each followed by clean-up, look-up, older insertion, look-up), expiries at phase midpoints, in the past and far away; " +
 		"non-trivial = insert or a lookup of a key that was inserted before; distinct by op line"
 	nCaches := e.N(1500, 12000)
 	nPhases := e.N(4, 20)
@@ -164,7 +167,12 @@ func (cc *cacheCase) oneOp(ctx context.Context, e *vlib.Env, base, planned time.
 		e.Violate("C31/"+class, what, map[string]any{"cache": cc.idx, "phase": ph,
 			"now_rel_s": nowRelMs / 1000, "history": append([]string(nil), cc.hist...)})
 	}
-	switch k := r.Intn(100); {
+	k := r.Intn(100)
+	scripted := false
+	if len(cc.script) > 0 { // follow-up of a short-lived / future-dated insertion
+		k, cc.script, key, scripted = cc.script[0], cc.script[1:], cc.scriptKey, true
+	}
+	switch {
 	case k < 50: // insert
 		exp := base.Unix() + expPool[r.Intn(len(expPool))]
 		if r.Chance(40) { // bias towards expiries that matter soon
@@ -174,6 +182,19 @@ func (cc *cacheCase) oneOp(ctx context.Context, e *vlib.Env, base, planned time.
 			}
 		}
 		ts := base.Unix() - 40 + int64(r.Intn(8))
+		short := false
+		if r.Chance(30) && !scripted {
+			// lifetime of 1..9 s (below path_mgmt.MinRevTTL); with an expiry after the next
+			// phase the timestamp then lies up to a few seconds in the FUTURE.  The cache
+			// itself imposes neither a minimum lifetime nor a past timestamp.
+			ts, short = exp-int64(r.Range(1, 9)), true
+		}
+		if scripted { // strictly older than the live one, long-lived
+			if l := liveLast(key); l != nil {
+				ts = int64(l.RawTimestamp) - 1 - int64(r.Intn(3))
+			}
+			exp = base.Unix() + 5000
+		}
 		if ts > exp {
 			ts = exp
 		}
@@ -223,8 +244,21 @@ func (cc *cacheCase) oneOp(ctx context.Context, e *vlib.Env, base, planned time.
 		if ok {
 			cc.last[key] = rev
 		}
+		if short {
+			if ts > plannedS+1 {
+				tag += "+future"
+			}
+			tag += "+short"
+			if ok && r.Chance(60) { // clean-up, look-up, older insertion, look-up
+				cc.script, cc.scriptKey = []int{90, 60, 10, 60}, key
+			}
+		}
+		if scripted {
+			tag += "+after-cleanup"
+		}
+		cc.lines[len(cc.lines)-1].tag = tag
 	case k < 85: // get
-		if r.Chance(10) {
+		if r.Chance(10) && !scripted {
 			key = revcache.Key{IA: key.IA, IfID: 9} // never inserted
 		}
 		op := fmt.Sprintf("get %d %d %d", nowRelMs, uint64(key.IA), key.IfID)
